@@ -9,6 +9,7 @@ import QV.Proofs.AuditPlain
 import QV.Proofs.ServerSignedTable
 import QV.Proofs.ServerAnswerFields
 import QV.Proofs.ServerAnswerMono
+import QV.Proofs.ServerAnswerTwoRun
 
 namespace QV.ServerContent
 open QV QV.Wire QV.Reader QV.Writer QV.Server QV.ServerSafety QV.ServerScan QV.ServerAnswer QV.Spec QV.ServerTsig
@@ -246,6 +247,138 @@ theorem signed_handler_eq_plain_allok (cfg : Cfg) (tr : Transport) (bufLen : Nat
   obtain ⟨ps', g1, g2, _⟩ := signed_run_eq_plain_run_allok z qn q.qtype _ mode rr hR pt h hok hfit hcnt
   rw [handle_of_inner_ok z qn q.qtype tr _ _ h, handle_of_inner_ok z qn q.qtype tr _ _ g1]
   exact ⟨rfl, rfl, g2⟩
+
+
+/-! ### (b): the plain run may have dropped optional calls, or failed — modulo `ScratchIndep` -/
+
+/-- **the signed run logs the same operations as the plain run** whenever the plain run succeeds
+    (optional calls possibly dropped) and leaves room for the TSIG record — modulo the named
+    hypothesis `ScratchIndep` (Proofs/ServerAnswerTwoRun.lean).  The final writers agree up to the
+    room, the TSIG slot, ARCOUNT + 1 and the octets at and above the cursor. -/
+theorem signed_run_eq_plain_run (hSI : ScratchIndep) (z : Zone.Zone) (qname : WName) (qtype : Nat) (s : State)
+    (mode : TsigMode) (rr : TsigRr) (hR : reservedLen mode rr ≤ s.available) (pt : PS)
+    (h : inner z qname qtype ⟨s, []⟩ = (.ok (), pt))
+    (hfit : pt.w.cursor + reservedLen mode rr ≤ s.available) (hcnt : pt.w.arcount + 1 ≤ 65535)
+    (hnp : (inner z qname qtype ⟨withTsig s mode rr, []⟩).1 ≠ .panic) :
+    ∃ ps' t0, inner z qname qtype ⟨withTsig s mode rr, []⟩ = (.ok (), ps') ∧ ps'.log = pt.log ∧
+      modS (s.limit + reservedLen mode rr) (some ⟨mode, reservedLen mode rr, rr⟩) pt.w =
+        lift (reservedLen mode rr) t0 ∧ Same ps'.w t0 := by
+  have h1 := (comPF_inner z qname qtype).1 (s.limit + reservedLen mode rr) (some ⟨mode, reservedLen mode rr, rr⟩)
+    ⟨s, []⟩ (by rw [h]; exact hcnt)
+  rw [h] at h1
+  simp only at h1
+  have e : modS (s.limit + reservedLen mode rr) (some ⟨mode, reservedLen mode rr, rr⟩) s =
+      lift (reservedLen mode rr) (withTsig s mode rr) := by
+    unfold modS lift withTsig
+    simp only
+    congr 1
+    omega
+  rw [e] at h1
+  obtain ⟨ps', t0, g1, g2, g3, g4, _⟩ := inner_two_run hSI z qname qtype (reservedLen mode rr) (withTsig s mode rr)
+    (withTsig s mode rr) [] _ (Same.refl _) rfl h1
+    (by show pt.w.cursor ≤ s.available - reservedLen mode rr; omega) hnp
+  exact ⟨ps', t0, g1, g2, g3, g4⟩
+
+/-- the view of a successful answering run: TC clear, RCODE 0 or 3 -/
+theorem view_inner_ok (z : Zone.Zone) (qname : WName) (qtype : Nat) (w : State) (r : Out PErr Unit) (pt : PS)
+    (h : inner z qname qtype ⟨w, []⟩ = (r, pt)) :
+    (view pt.log).tc = false ∧ ((view pt.log).rcode = 0 ∨ (view pt.log).rcode = 3) := by
+  obtain ⟨evs, hl, hP, _⟩ := LogsH.inner z qname qtype ⟨w, []⟩
+  rw [h] at hl
+  simp only [List.nil_append] at hl
+  rw [hl]
+  exact foldl_innerEv evs {} hP
+
+/-- the view after `handle_non_axfr_query` when the answering logic failed and TC is not set:
+    SERVFAIL, AA clear, no records -/
+theorem view_handle_err (z : Zone.Zone) (qname : WName) (qtype : Nat) (tr : Transport) (w : State) (e : PErr)
+    (pt : PS) (h : inner z qname qtype ⟨w, []⟩ = (.err e, pt))
+    (hnp : (handleNonAxfrQueryL z qname qtype tr ⟨w, []⟩).1 ≠ .panic)
+    (htc : (view (handleNonAxfrQueryL z qname qtype tr ⟨w, []⟩).2.log).tc = false) :
+    view (handleNonAxfrQueryL z qname qtype tr ⟨w, []⟩).2.log =
+      { rcode := 2, aa := false, tc := false, answer := [], authority := [], additional := [] } := by
+  obtain ⟨hlog, _⟩ := handle_log_np z qname qtype tr ⟨w, []⟩ hnp
+  obtain ⟨f1, _⟩ := view_inner_ok z qname qtype w _ pt h
+  rw [hlog] at htc ⊢
+  rw [h] at htc ⊢
+  simp only at htc ⊢
+  unfold view at htc f1 ⊢
+  rw [List.foldl_append] at htc ⊢
+  generalize pt.log.foldl View.step {} = v0 at htc f1 ⊢
+  obtain ⟨rc, aa, tc, an, ns, ar⟩ := v0
+  simp only at f1
+  subst f1
+  cases e with
+  | servFail => simp [tailEvs, View.step, Resolve.SERVFAIL]
+  | truncation =>
+    by_cases htr : tr = Transport.tcp
+    · simp [tailEvs, htr, View.step, Resolve.SERVFAIL]
+    · simp [tailEvs, htr, View.step] at htc
+
+/-- **(b), model level: the signed run shows the same view as the plain run** — RCODE, AA, TC and the
+    three sections — whenever neither response is truncated, the plain result (when the answering logic
+    succeeds) leaves room for the TSIG record, and a plain SERVFAIL is a signed SERVFAIL (the three
+    guards of the audit's comparison clause).  Modulo `ScratchIndep`.  When the plain answering logic
+    succeeded, so did the signed one, with the same log, and the final writers agree up to the room,
+    the TSIG slot, ARCOUNT + 1 and the octets at and above the cursor. -/
+theorem signed_handler_eq_plain (hSI : ScratchIndep) (cfg : Cfg) (tr : Transport) (bufLen : Nat) (req : Bytes)
+    (hbuf : minBuf tr cfg.payload ≤ bufLen) (hpay : 512 ≤ cfg.payload) (id opcode : Nat) (rd : Bool)
+    (q : Spec.DQuestion) (nx : Nat) (hsq : Spec.specQuestionAt req 12 = some (q.qname, q.qtype, q.qclass, nx))
+    (z : Zone.Zone) (qn : WName) (mode : TsigMode) (rr : TsigRr)
+    (hR : reservedLen mode rr ≤ (scanState cfg tr bufLen req id opcode rd q).available)
+    (hnpP : (handleNonAxfrQueryL z qn q.qtype tr ⟨scanState cfg tr bufLen req id opcode rd q, []⟩).1 ≠ .panic)
+    (hnpS : (handleNonAxfrQueryL z qn q.qtype tr
+      ⟨withTsig (stRcode 0 (scanState cfg tr bufLen req id opcode rd q)) mode rr, []⟩).1 ≠ .panic)
+    (htcP : (view (handleNonAxfrQueryL z qn q.qtype tr ⟨scanState cfg tr bufLen req id opcode rd q, []⟩).2.log).tc = false)
+    (htcS : (view (handleNonAxfrQueryL z qn q.qtype tr
+      ⟨withTsig (stRcode 0 (scanState cfg tr bufLen req id opcode rd q)) mode rr, []⟩).2.log).tc = false)
+    (hrc2 : (view (handleNonAxfrQueryL z qn q.qtype tr ⟨scanState cfg tr bufLen req id opcode rd q, []⟩).2.log).rcode = 2 →
+      (view (handleNonAxfrQueryL z qn q.qtype tr
+        ⟨withTsig (stRcode 0 (scanState cfg tr bufLen req id opcode rd q)) mode rr, []⟩).2.log).rcode = 2)
+    (hfit : ∀ pt, inner z qn q.qtype ⟨scanState cfg tr bufLen req id opcode rd q, []⟩ = (.ok (), pt) →
+      pt.w.cursor + reservedLen mode rr ≤ (scanState cfg tr bufLen req id opcode rd q).available ∧
+      pt.w.arcount + 1 ≤ 65535) :
+    view (handleNonAxfrQueryL z qn q.qtype tr
+      ⟨withTsig (stRcode 0 (scanState cfg tr bufLen req id opcode rd q)) mode rr, []⟩).2.log =
+      view (handleNonAxfrQueryL z qn q.qtype tr ⟨scanState cfg tr bufLen req id opcode rd q, []⟩).2.log ∧
+    (∀ pt, inner z qn q.qtype ⟨scanState cfg tr bufLen req id opcode rd q, []⟩ = (.ok (), pt) →
+      handleNonAxfrQueryL z qn q.qtype tr ⟨scanState cfg tr bufLen req id opcode rd q, []⟩ = (.ok (), pt) ∧
+      ∃ ps' t0, handleNonAxfrQueryL z qn q.qtype tr
+          ⟨withTsig (stRcode 0 (scanState cfg tr bufLen req id opcode rd q)) mode rr, []⟩ = (.ok (), ps') ∧
+        ps'.log = pt.log ∧
+        modS ((scanState cfg tr bufLen req id opcode rd q).limit + reservedLen mode rr)
+          (some ⟨mode, reservedLen mode rr, rr⟩) pt.w = lift (reservedLen mode rr) t0 ∧ Same ps'.w t0) := by
+  rw [stRcode0_scanState cfg tr bufLen req hbuf hpay id opcode rd q nx hsq] at hnpS htcS hrc2 ⊢
+  generalize scanState cfg tr bufLen req id opcode rd q = SS at *
+  have hnpSi := (handle_log_np z qn q.qtype tr ⟨withTsig SS mode rr, []⟩ hnpS).2
+  have hok : ∀ pt, inner z qn q.qtype ⟨SS, []⟩ = (.ok (), pt) →
+      handleNonAxfrQueryL z qn q.qtype tr ⟨SS, []⟩ = (.ok (), pt) ∧
+      ∃ ps' t0, handleNonAxfrQueryL z qn q.qtype tr ⟨withTsig SS mode rr, []⟩ = (.ok (), ps') ∧
+        ps'.log = pt.log ∧
+        modS (SS.limit + reservedLen mode rr) (some ⟨mode, reservedLen mode rr, rr⟩) pt.w =
+          lift (reservedLen mode rr) t0 ∧ Same ps'.w t0 := by
+    intro pt h
+    obtain ⟨hf1, hf2⟩ := hfit pt h
+    obtain ⟨ps', t0, g1, g2, g3, g4⟩ := signed_run_eq_plain_run hSI z qn q.qtype SS mode rr hR pt h hf1 hf2 hnpSi
+    exact ⟨handle_of_inner_ok z qn q.qtype tr _ _ h, ps', t0, handle_of_inner_ok z qn q.qtype tr _ _ g1, g2, g3, g4⟩
+  refine ⟨?_, hok⟩
+  rcases hr : inner z qn q.qtype ⟨SS, []⟩ with ⟨(u | e | _), pt⟩
+  · obtain ⟨k1, ps', t0, k2, k3, _⟩ := hok pt hr
+    rw [k1, k2]
+    simp only
+    rw [k3]
+  · have vP := view_handle_err z qn q.qtype tr SS e pt hr hnpP htcP
+    have hS2 := hrc2 (by rw [vP])
+    rcases hrS : inner z qn q.qtype ⟨withTsig SS mode rr, []⟩ with ⟨(u | e' | _), ptS⟩
+    · have := view_inner_ok z qn q.qtype _ _ ptS hrS
+      rw [handle_of_inner_ok z qn q.qtype tr _ _ hrS] at hS2
+      simp only at hS2
+      rw [hS2] at this
+      rcases this.2 with h' | h' <;> cases h'
+    · rw [vP, view_handle_err z qn q.qtype tr _ e' ptS hrS hnpS htcS]
+    · rw [hrS] at hnpSi; exact absurd rfl hnpSi
+  · have := (handle_log_np z qn q.qtype tr ⟨SS, []⟩ hnpP).2
+    rw [hr] at this; exact absurd rfl this
 
 
 end QV.ServerContent
